@@ -177,7 +177,7 @@ def cases_for(tier, s):
     add("expr_suite", "triangle", p={"which": "rank0_scalar", "pts": "interior", "npts": 40})
     add("expr_suite", "triangle", gdim=3, p={"which": "rank0_vector_x"})
     for cell in CELLS[1:]:
-        for wh in ("normal", "flux", "x"):
+        for wh in ("normal", "flux", "x", "rank1_u", "rank1_flux", "rank1_grad"):
             add("expr_facet", cell, p={"which": wh})
     for st in ("float32", "complex128", "complex64"):
         add("expr_suite", "triangle", cdeg=2, p={"which": "rank1_scalar"}, options={"scalar_type": st})
